@@ -17,6 +17,7 @@ import (
 	"path/filepath"
 	"sort"
 	"strconv"
+	"time"
 
 	"verifharness/internal/rng"
 )
@@ -178,6 +179,8 @@ func main() {
 	replay := flag.String("replay", "", "replay file (JSON with .input = a scenario)")
 	only := flag.String("only", "", "C06|C07: which property's scenarios to run (default both)")
 	scale := flag.Int("scale", 1, "multiplier of the scenario counts")
+	limit := flag.Int("limit", 0, "run only the first N scenarios (debugging)")
+	verbose := flag.Bool("v", false, "print every scenario and its duration")
 	flag.Parse()
 	if *out == "" {
 		fmt.Fprintln(os.Stderr, "need -out")
@@ -246,8 +249,15 @@ func main() {
 			shard = nil
 		}
 	}
+	if *limit > 0 && len(scens) > *limit {
+		scens = scens[:*limit]
+	}
 	for id, sc := range scens {
+		t1 := time.Now()
 		res := runScenario(sc, work)
+		if *verbose {
+			fmt.Fprintf(os.Stderr, "%d %s %.3fs err=%q fails=%d %s\n", id, sc.Kind, time.Since(t1).Seconds(), res.infraErr, len(res.fails), sc.json())
+		}
 		if res.infraErr != "" {
 			infra = append(infra, fmt.Sprintf("scenario %d (%s): %s", id, sc.Kind, res.infraErr))
 			continue
